@@ -160,6 +160,10 @@ def r2_accumulate_then_flush(ctx: Ctx) -> None:
     fi = flush_ifs[0]
     ctx.check(unparse(fi.test) == "isinstance(node, CodePositionNode)", "Program.emit:flush-condition",
               f"a new block starts on `*=` only (`@=` keeps storing contiguously); test is `{unparse(fi.test)}`")
+    # isinstance() also answers yes for subclasses: no other node kind may derive from the `*=` node
+    cpn = ctx.repo.cls("a816.parse.nodes", "CodePositionNode")
+    subs = sorted(c.name for c in ctx.repo.all_classes() if c is not cpn and cpn in ctx.repo.mro(c))
+    ctx.check(not subs, "Program.emit:flush-condition:subclasses", f"only the `*=` node is a CodePositionNode; subclasses found: {subs} (they would start a new block too)")
     order = [unparse(s)[:40] for s in lp.body]
     idx_emit = next(i for i, s in enumerate(lp.body) if s is nb[0]) if nb and nb[0] in lp.body else -1
     idx_flush = lp.body.index(fi)
@@ -239,11 +243,12 @@ def r3_position_nodes(ctx: Ctx) -> None:
 
 def r4_writers_place_blocks(ctx: Ctx) -> None:
     """each block handed to a writer lands at its address: IPS record tiling and header packing, SFC seek-then-write"""
-    from .c11 import r1_framing, r2_tiling_loop
+    from .c11 import r1_framing, r2_tiling_loop, r3_no_wrap_and_copier
     from .c12 import r4_one_pipeline
 
     r1_framing(ctx)
     r2_tiling_loop(ctx)
+    r3_no_wrap_and_copier(ctx)  # the offset a record is filed under: the block's own, plus the copier displacement when asked for
     sw = ctx.repo.func("a816.writers", "SFCWriter.write_block")
     body = canonical_statements(sw.node)
     ctx.check(body == [f"self.file.seek({sw.params()[2]})", f"self.file.write({sw.params()[1]})"], "SFCWriter.write_block", f"seek to the block's offset, then write the block; found {body}")
